@@ -454,6 +454,47 @@ func classifyLoop(l *Loop) {
 			}
 		}
 	}
+	// consuming: a string/slice carried around the loop is cut from the front on every way round, by at least
+	// a positive constant on each (x[i:] alone may cut nothing; x[i:][3:] cuts at least 3). Its length is a
+	// non-negative integer that strictly decreases, so the loop ends (a cut beyond the end panics: that is the
+	// bounds obligation of the slice expression, not this one).
+	for _, in := range l.Header.Instrs {
+		phi, ok := in.(*ssa.Phi)
+		if !ok {
+			break
+		}
+		switch phi.Type().Underlying().(type) {
+		case *types.Slice, *types.Basic:
+		default:
+			continue
+		}
+		if b, isB := phi.Type().Underlying().(*types.Basic); isB && b.Info()&types.IsString == 0 {
+			continue
+		}
+		all, n := true, 0
+		for i, e := range phi.Edges {
+			if i >= len(l.Header.Preds) || !l.Blocks[l.Header.Preds[i]] {
+				continue // entry edge
+			}
+			n++
+			if cut, ok := frontCut(e, phi, 0); !ok || cut < 1 {
+				all = false
+			}
+		}
+		if all && n > 0 {
+			l.Class = "consuming"
+			l.Detail = "the " + phi.Comment + " carried around the loop loses at least one leading element per iteration"
+			return
+		}
+	}
+	// reading: every way round the loop performs a full read (io.ReadFull / io.ReadAtLeast, which report an error
+	// whenever they deliver less than asked for) and the loop is left when that read fails, while its condition
+	// compares what has been read so far with a bound. It ends when the reader runs dry or the bound is reached.
+	if readingLoop(l) {
+		l.Class = "reading"
+		l.Detail = "every iteration performs a full read whose error leaves the loop; the loop condition bounds what is still to be read"
+		return
+	}
 	// range over map/string: exits when the iterator is exhausted
 	for b := range l.Blocks {
 		for _, in := range b.Instrs {
@@ -476,6 +517,157 @@ func classifyLoop(l *Loop) {
 			}
 		}
 	}
+}
+
+func readingLoop(l *Loop) bool {
+	// the read
+	var read *ssa.Call
+	for b := range l.Blocks {
+		for _, in := range b.Instrs {
+			call, ok := in.(*ssa.Call)
+			if !ok {
+				continue
+			}
+			if callee := call.Call.StaticCallee(); callee != nil && callee.Object() != nil {
+				switch callee.Object().(*types.Func).FullName() {
+				case "io.ReadFull", "io.ReadAtLeast":
+					if read != nil {
+						return false
+					}
+					read = call
+				}
+			}
+		}
+	}
+	if read == nil {
+		return false
+	}
+	// every back edge is dominated by the read and by the nil side of a test of its error
+	var errv ssa.Value
+	for _, r := range *read.Referrers() {
+		if ex, ok := r.(*ssa.Extract); ok && ex.Index == 1 {
+			errv = ex
+		}
+	}
+	if errv == nil {
+		return false
+	}
+	for i, p := range l.Header.Preds {
+		_ = i
+		if !l.Blocks[p] {
+			continue
+		}
+		if !read.Block().Dominates(p) {
+			return false
+		}
+		okErr := false
+		for _, g := range GuardsOfEdge(p, l.Header) {
+			b, isB := g.Cond.(*ssa.BinOp)
+			if !isB || (b.Op != token.EQL && b.Op != token.NEQ) {
+				continue
+			}
+			var other ssa.Value
+			if isNilConst(b.Y) {
+				other = b.X
+			} else if isNilConst(b.X) {
+				other = b.Y
+			}
+			if other == nil {
+				continue
+			}
+			// the error itself or a merge that replaces some non-nil values of it by other non-nil values
+			if other == errv || derivesFromErr(other, errv, 0) {
+				if (b.Op == token.EQL) == g.True {
+					okErr = true
+				}
+			}
+		}
+		if !okErr {
+			return false
+		}
+	}
+	// the loop condition: len(<header phi>) compared with something
+	br, ok := l.Header.Instrs[len(l.Header.Instrs)-1].(*ssa.If)
+	if !ok {
+		return false
+	}
+	bin, ok := br.Cond.(*ssa.BinOp)
+	if !ok {
+		return false
+	}
+	hasLen := false
+	for _, side := range []ssa.Value{bin.X, bin.Y} {
+		v := side
+		if cv, isCv := v.(*ssa.Convert); isCv {
+			v = cv.X
+		}
+		if isLenOf(v) {
+			hasLen = true
+		}
+	}
+	return hasLen && (!l.Blocks[l.Header.Succs[0]] || !l.Blocks[l.Header.Succs[1]])
+}
+
+// derivesFromErr: v is errv or a phi all of whose operands are errv or a non-nil constant error (an error
+// translated into another error).
+func derivesFromErr(v, errv ssa.Value, depth int) bool {
+	if v == errv {
+		return true
+	}
+	phi, ok := v.(*ssa.Phi)
+	if !ok || depth > 3 {
+		return false
+	}
+	for _, e := range phi.Edges {
+		if e == errv || derivesFromErr(e, errv, depth+1) {
+			continue
+		}
+		if u, isU := e.(*ssa.UnOp); isU && u.Op == token.MUL {
+			if _, isG := u.X.(*ssa.Global); isG {
+				continue // a package-level error value (io.ErrUnexpectedEOF)
+			}
+		}
+		return false
+	}
+	return true
+}
+
+// frontCut: v is obtained from phi by slicing off the front only (no upper bound, so it never gets longer); the
+// result is the least number of elements certainly removed (the sum of the constant lower bounds on the way).
+func frontCut(v ssa.Value, phi *ssa.Phi, depth int) (int64, bool) {
+	if depth > 6 {
+		return 0, false
+	}
+	if v == ssa.Value(phi) {
+		return 0, true
+	}
+	switch x := v.(type) {
+	case *ssa.Slice:
+		if x.High != nil || x.Max != nil {
+			return 0, false
+		}
+		k := int64(0)
+		if x.Low != nil {
+			if c, isC := ConstInt(x.Low); isC && c > 0 {
+				k = c
+			}
+		}
+		rest, ok := frontCut(x.X, phi, depth+1)
+		return rest + k, ok
+	case *ssa.Phi:
+		min, any := int64(0), false
+		for _, e := range x.Edges {
+			c, ok := frontCut(e, phi, depth+1)
+			if !ok {
+				return 0, false
+			}
+			if !any || c < min {
+				min, any = c, true
+			}
+		}
+		return min, any
+	}
+	return 0, false
 }
 
 func isLenOf(v ssa.Value) bool {
@@ -595,6 +787,15 @@ func normalisedExpr(fset *token.FileSet, info *types.Info, n ast.Node) string {
 		case *ast.BinaryExpr:
 			return render(x.X) + x.Op.String() + render(x.Y)
 		case *ast.SelectorExpr:
+			// a field path over a local is the same place whatever the path is called (buf.Bytes() vs tb.buf.Bytes())
+			if r := render(x.X); r == "_" || strings.HasPrefix(r, "_.") {
+				if info != nil {
+					if sel := info.Selections[x]; sel != nil && sel.Kind() == types.FieldVal {
+						return "_"
+					}
+				}
+				return "_." + x.Sel.Name
+			}
 			return render(x.X) + "." + x.Sel.Name
 		case *ast.CallExpr:
 			args := make([]string, len(x.Args))
